@@ -927,7 +927,7 @@ func (l *lexer) lexComment() error {
 	}
 	line := l.line
 	column := l.column
-	l.column += 4
+	l.column += 2
 	for i := 2; i < p-2; i++ {
 		if c := l.src[i]; c == '\n' {
 			l.newline()
@@ -935,6 +935,7 @@ func (l *lexer) lexComment() error {
 			l.column++
 		}
 	}
+	l.column += 2
 	l.emitAtLineColumn(line, column, tokenComment, p)
 	return nil
 }
